@@ -183,10 +183,32 @@ def cases(draw, quick=True):
     }
 
 
+L = {'t': 'leaf'}
+RENUM_PROGS = [
+    # a map whose results arrive both locally (main thread) and from other
+    # workers (incoming thread), followed by further awaits
+    {'t': 'seq', 'order': [0, 1], 'kids': [
+        {'t': 'map', 'kids': [L, L, L]}, L]},
+    {'t': 'seq', 'order': [1, 0], 'kids': [
+        L, {'t': 'mapnext', 'kids': [L, L, L]}]},
+]
+
+
+def renum_cases(quick: bool):
+    """every point of a RESULT handler at which the worker's main thread
+    takes a step (finishing a local child, stepping the parent)"""
+    return sc.enum_rpreemptions(
+        RENUM_PROGS, ENUM_BASES[:4] if quick else ENUM_BASES,
+        (2,) if quick else (2, 3), names=('RESULT',))
+
+
 def run_shard(ctx: core.Ctx) -> core.ShardResult:
     res = core.ShardResult()
     quick = ctx.tier == 'quick'
     done = core.run_enumeration(ctx, res, enum_cases(quick), check)
     res.extra['exhaustive_single_preemption_complete'] = bool(done)
+    done = core.run_enumeration(ctx, res, renum_cases(quick), check)
+    res.extra['main_step_inside_result_handler_enumeration_complete'] = \
+        bool(done)
     core.run_hypothesis(ctx, res, cases(quick), check, ctx.n(250, 8000))
     return res
